@@ -69,7 +69,9 @@ def node_has_call(n, pred):
 
 
 def is_setting_test(e):
-    """``<...>.settings.get("xsrf_cookies")`` (truthiness)."""
+    """``<...>.settings.get("xsrf_cookies")`` (truthiness), possibly wrapped in bool()."""
+    while isinstance(e, ast.Call) and isinstance(e.func, ast.Name) and e.func.id == "bool" and len(e.args) == 1:
+        e = e.args[0]
     return isinstance(e, ast.Call) and isinstance(e.func, ast.Attribute) and e.func.attr == "get" and e.args and isinstance(e.args[0], ast.Constant) and e.args[0].value == "xsrf_cookies" \
         and (q.dotted(e.func.value) or "").endswith("settings")
 
@@ -129,6 +131,8 @@ def check_gate(ck, ex):
             if isinstance(x, (ast.BoolOp, ast.UnaryOp, ast.Compare, ast.Constant, ast.Tuple, ast.List, ast.Set, ast.Name, ast.Attribute, ast.expr_context, ast.boolop, ast.unaryop, ast.cmpop)):
                 continue
             if isinstance(x, ast.Call) and (is_setting_test(x) or (isinstance(x.func, ast.Attribute) and x.func.attr in ("lower", "upper") and not x.args and q.dotted(x.func.value) is not None)):
+                continue
+            if isinstance(x, ast.Call) and isinstance(x.func, ast.Name) and x.func.id == "bool" and len(x.args) == 1:
                 continue
             return False
         return True
